@@ -101,6 +101,11 @@ def configs() -> list[Cfg]:
             out.append(Cfg(f'annotations[{prefix},v1={v1}]', progress.AnnotationsProgressStorage(prefix=prefix, v1=v1),
                            diffbase.AnnotationsDiffBaseStorage(prefix=prefix, v1=v1), prefix))
     out.append(Cfg('status', progress.StatusProgressStorage(), diffbase.StatusDiffBaseStorage(), None))
+    # records kept directly under `status` (docs/configuration.rst: field='status.my-operator'), the touch field elsewhere
+    out.append(Cfg('status-flat', progress.StatusProgressStorage(field='status.my-operator', touch_field='status.my-dummy'),
+                   diffbase.StatusDiffBaseStorage(field='status.my-base'), None))
+    out.append(Cfg('smart-flat', progress.SmartProgressStorage(field='status.my-operator', touch_field='status.my-dummy'),
+                   diffbase.AnnotationsDiffBaseStorage(), 'kopf.zalando.org'))
     out.append(Cfg('multi', progress.MultiProgressStorage([progress.AnnotationsProgressStorage(prefix='multi.example.com'),
                                                            progress.StatusProgressStorage(name='multi')]),
                    diffbase.MultiDiffBaseStorage([diffbase.AnnotationsDiffBaseStorage(prefix='multi.example.com'),
@@ -112,10 +117,10 @@ def flavours() -> dict[str, dict]:
     meta = {'name': 'a', 'namespace': 'ns', 'uid': 'u1', 'annotations': {'user/data': 'ü', 'plain': 'v', 'kopf.zalando.org.uk/region': 'eu', 'my-op.example.com.au/r': 'au',
                                                                 'multi.example.community/x': 'y'}}
     return {
-        'plain': {'apiVersion': 'kopf.dev/v1', 'kind': 'KopfExample', 'metadata': copy.deepcopy(meta), 'spec': {'x': 1}},
+        'plain': {'apiVersion': 'kopf.dev/v1', 'kind': 'KopfExample', 'metadata': copy.deepcopy(meta), 'spec': {'x': 1}, 'status': {'phase': 'Ready', 'replicas': 3}},
         'replicaset-of-deployment': {'apiVersion': 'apps/v1', 'kind': 'ReplicaSet',
                                      'metadata': dict(copy.deepcopy(meta), ownerReferences=[{'kind': 'Deployment', 'name': 'd', 'uid': 'x'}]),
-                                     'spec': {'replicas': 1}},
+                                     'spec': {'replicas': 1}, 'status': {'phase': 'Ready', 'replicas': 3}},
     }
 
 
@@ -355,6 +360,16 @@ def graph_check(tier: str, stats: Stats) -> list[Violation]:
                                 add('user-data-disturbed', f"[{cfg.name}/{fname}] after {oname}: the essence drops the user's annotations {lost}", config=cfg.name, what='essence')
                             if own:
                                 add('own-records-in-essence', f"[{cfg.name}/{fname}] after {oname}: the essence contains the operator's own records {own}", config=cfg.name)
+                        # ... and the user's status fields that handlers are narrowed to (restored into the essence as extra fields) stay in it,
+                        # while nothing of the operator's own bookkeeping in the status stanza gets there with them
+                        try:
+                            ess_st = cfg.prog.clear(essence=cfg.base.build(body=b2, extra_fields=['status.phase', 'status.replicas'])).get('status')
+                        except Exception as e:
+                            add('storage-raises', f"[{cfg.name}/{fname}] building the essence (status fields) after {oname}: {type(e).__name__}: {e}", exc=type(e).__name__, idclass='essence')
+                            ess_st = {'phase': 'Ready', 'replicas': 3}
+                        if ess_st != {'phase': 'Ready', 'replicas': 3}:
+                            add('user-data-disturbed' if not isinstance(ess_st, dict) or ess_st.get('phase') != 'Ready' or ess_st.get('replicas') != 3 else 'own-records-in-essence',
+                                f"[{cfg.name}/{fname}] after {oname}: the status stanza of the essence (handlers on status.phase / status.replicas) is {ess_st}", config=cfg.name, what='essence-status')
                         if verb != 'user' and anns(raw2).get('plain') != 'v':
                             add('user-data-disturbed', f"[{cfg.name}/{fname}] after {oname}: user annotation changed", config=cfg.name)
                         st2 = (json.dumps(raw2, sort_keys=True), json.dumps(m2, sort_keys=True), json.dumps(f2, sort_keys=True),
